@@ -118,9 +118,9 @@ def run(ctx):
         wit[rp["trigger"]] = "reproduces" if rp["trigger"] in trigs else "does not reproduce (repaired?)"
         judge(ctx, r_, c_, mm_, mv_)
     if ctx.tier == "thorough":
-        args = ["-seed", str(ctx.seed), "-n", "1500", "-blocks", "30"]
+        args = ["-seed", str(ctx.seed), "-n", "1000", "-blocks", "30", "-per", "20"]
     else:
-        args = ["-seed", str(ctx.seed), "-n", "150", "-blocks", "24"]
+        args = ["-seed", str(ctx.seed), "-n", "100", "-blocks", "24", "-per", "12"]
     rep, cases, mm, mv, st = evaluate(ctx, vh, args)
     found, hist = judge(ctx, rep, cases, mm, mv)
     cov = ctx.coverage
